@@ -42,6 +42,7 @@ Everything lives in `namespace BiotiteModel.C08`.
 * affine traceback: `ANode`, `followG next mx fuel s suffix c`, `nextAff mode M go ge a b T`, `startsAff`,
   `tracesAff mode M go ge a b T mx`, `affLookup`
 * `alignOptimalModel mode gap M a b mx : Int × List Aln` — the whole model (headline theorems `C08_align_optimal_*`)
+* `argCheck gap mx : Option Err` — the argument refusals of `align_optimal`
 * `checkAll a b M gap mode maxNumber traces score : Bool`  all of the above for every trace, plus
   pairwise distinctness of the non-empty traces and `traces.length ≤ maxNumber`.
 
@@ -630,6 +631,17 @@ def affLookup (tbl : List (List AffCell)) (i j : Nat) : AffCell := (tbl.getD i [
 def diagAln : Nat → Nat → Aln
   | _, 0 => []
   | k, n + 1 => .both k k :: diagAln (k + 1) n
+
+/-- Argument checks of `align_optimal` in the order the code performs them (`none` = accepted):
+positive gap penalty → ValueError; `max_number < 1` → ValueError; a gap penalty that does not fit a C `int`
+(`_fill_align_table(int gap_penalty, …)`) → OverflowError; `max_number ≥ 2³¹` → OverflowError when it is handed to
+`follow_trace(int max_trace_count)` (known finding: the property quantifies over all `max_number ≥ 1`). -/
+def argCheck (gap : Gap) (mx : Int) : Option Err :=
+  if gap.go > 0 ∨ gap.ge > 0 then some .valueError
+  else if mx < 1 then some .valueError
+  else if gap.go < -2147483648 ∨ gap.ge < -2147483648 then some .overflowError
+  else if mx ≥ 2147483648 then some .overflowError
+  else none
 
 /-- The model of `align_optimal`: table fill, reported score read off the table, start selection, traceback and
 the final `[:max_number]` truncation.  Returns (reported score, returned alignments). -/
